@@ -117,6 +117,35 @@ theorem blank_not_key (re : Regex) (l : Text) (h : (trim l).isEmpty = true) : ke
 theorem nonmatching_not_key (re : Regex) (p l : Text) (h : re.captures p l = none) : keyOf re (some p) l = none := by
   simp [keyOf, h]
 
+/-- **block level**: a `keep-unique` block whose pattern (if any) compiles passes exactly when the keys of its
+    content lines are pairwise distinct -/
+theorem ku_block_iff (re : Regex) (file : Text) (b : Blocks.Block) (pat : Text)
+    (hc : pat.isEmpty = true ∨ re.compiles pat = true) :
+    keepUnique re file b pat = .ok none ↔
+      ((keysOf re (if pat.isEmpty then none else some pat) (lines (content file b))).map (·.key)).Nodup := by
+  rw [← ku_iff]
+  have hg : ((if pat.isEmpty then none else some pat : Option Text).isSome && !re.compiles pat) = false := by
+    rcases hc with h | h
+    · simp [h]
+    · simp [h]
+  simp only [keepUnique, hg, Bool.false_eq_true, if_false]
+  cases hf : firstDup [] (keysOf re (if pat.isEmpty then none else some pat) (lines (content file b))) with
+  | none => simp [dupVerdict, finishKey]
+  | some k =>
+    simp only [dupVerdict, finishKey]
+    cases severityOf b.attrs <;> simp
+
+/-- … and a duplicate yields exactly one `keep-unique` diagnostic, on the first key that has already occurred -/
+theorem ku_block_viol (re : Regex) (file : Text) (b : Blocks.Block) (pat : Text)
+    (hc : pat.isEmpty = true ∨ re.compiles pat = true) (sev : Nat) (hs : severityOf b.attrs = .ok sev) (k : Key)
+    (hk : firstDup [] (keysOf re (if pat.isEmpty then none else some pat) (lines (content file b))) = some k) :
+    keepUnique re file b pat = .ok (some (keyDiag "keep-unique" b k sev [])) := by
+  have hg : ((if pat.isEmpty then none else some pat : Option Text).isSome && !re.compiles pat) = false := by
+    rcases hc with h | h
+    · simp [h]
+    · simp [h]
+  simp only [keepUnique, hg, Bool.false_eq_true, if_false, hk, dupVerdict, finishKey, hs]
+
 example : firstDup [] [⟨0, "a".toList, 1, 1⟩, ⟨1, "b".toList, 1, 1⟩, ⟨3, "a".toList, 2, 2⟩, ⟨4, "b".toList, 1, 1⟩]
     = some ⟨3, "a".toList, 2, 2⟩ := by decide
 
